@@ -438,6 +438,17 @@ def gen_case(rng: Rng, max_routers: int = 3) -> dict:
             extra.append({"op": "ping", "src": dh, "dst": t.nodes[h]["ip"], "count": 1})
             extra.append({"op": "ping", "src": h, "dst": t.nodes[dh]["ip"], "count": 1})
         extra.append({"op": "enable", "node": dh, "ifc": 0})
+        if rng.chance(1, 2):
+            # the OTHER NIC goes down while the gateway's stays up: destinations on the dead NIC's subnet are still "on one of my
+            # networks" for send_arp_request (it looks at every interface, enabled or not) but leave through the gateway's NIC
+            lan2_hosts = [x for x in lan2["hosts"] if x != dh]
+            extra.append({"op": "arpclear", "node": dh})
+            extra.append({"op": "disable", "node": dh, "ifc": 1})
+            for h in lan2_hosts[:2]:
+                extra.append({"op": "ping", "src": dh, "dst": t.nodes[h]["ip"], "count": 1})
+            extra.append({"op": "ping", "src": dh, "dst": _ip(lan2["net"], 99 if lan2["p"] <= 25 else 13), "count": 1})  # absent, dead NIC's subnet
+            extra.append({"op": "enable", "node": dh, "ifc": 1})
+            notes["dual_homed_other_nic_down"] = True
     if hosts:
         extra.append({"op": "ping", "src": rng.choice(hosts), "dst": "8.8.8.8", "count": 1})
         if routers_idx:
@@ -485,6 +496,17 @@ def gen_case(rng: Rng, max_routers: int = 3) -> dict:
             if pairs:
                 for a, b in rng.shuffle(pairs)[:2]:
                     extra.append({"op": "ping", "src": a, "dst": t.nodes[b]["ip"], "count": 1})
+            dead = [l for l in t.lans if l["router"] == r and l.get("port") == i]
+            far = [h for l in t.lans if l not in dead for h in l["hosts"]]
+            if dead and far:
+                # destinations ON THE SUBNET OF THE DEAD PORT: the look-ups still find "an interface whose network holds the address"
+                # (enabled or not), send_arp_request still asks for the address itself, and the request leaves through whatever
+                # the route table offers for it (a default / covering route via another port) — or nothing happens
+                src = rng.choice(far)
+                for h in dead[0]["hosts"][:2]:
+                    extra.append({"op": "ping", "src": src, "dst": t.nodes[h]["ip"], "count": 1})
+                extra.append({"op": "ping", "src": src, "dst": _ip(dead[0]["net"], 99 if dead[0]["p"] <= 25 else 13), "count": 1})
+                notes["dead_port_subnet"] = notes.get("dead_port_subnet", 0) + 1
             if hosts:
                 # the router itself must answer (ARP reply, echo reply) while one of its ports is down: its own
                 # resolve_outbound_network_interface may have to fall back to a route whose next hop lies behind the dead port
